@@ -269,6 +269,36 @@ def reexport_config_check(chk, rng):
                       re_rendered=rer.get("canon"), direct=direct.get("canon"))
 
 
+def configure_only_check(chk, rng):
+    """`naunet init` without rendering only writes the configuration: every value is written as it was given - a dust model of the
+    user's own (registered by a module named in `--loading`, any spelling) included."""
+    d = gen_desc(rng, 0)
+    while d["replacement"]:
+        d = gen_desc(rng, 0)
+    d = dict(d, rate_modifier={}, ode_modifier={}, grain_model=rng.choice(["MyDust", "RR07X", "Hh93_v2"]))
+    d.pop("ode_modifier_terms", None)
+    pdir = chk.scratch / "configure-only" / "proj"
+    pdir.mkdir(parents=True)
+    for i, (content, fmt) in enumerate(d["files"]):
+        (pdir / f"net{i}.{fmt}").write_text(content)
+    opts, _ = option_string(d, "proj")
+    opts = opts.replace(" --render --render-force", "")
+    # (without --render the command asks whether to render now: the answer is no)
+    res = run_worker({"steps": [{"op": "cli_init", "dir": str(pdir), "options": opts, "inputs": "no\nno\nno\n", "tag": ["configure-only", 0]}]}, 0)
+    chk.count(("configure-only",), nontrivial=True)
+    chk.hist["configure-only"] += 1
+    if isinstance(res, dict) or "error" in res[0]:
+        chk.violation({"kind": "init-raised", "msg": "configure-only"}, f"`naunet init` without --render raised: {res if isinstance(res, dict) else res[0]['error']}",
+                      input={"grain_model": d["grain_model"]})
+        return
+    got, want = toml_description(res[0]["toml"]), requested_description(d)
+    badf = [f for f in want if got[f] != want[f]]
+    if badf:
+        chk.violation({"kind": "config-field-differs", "fields": badf, "path": "configure-only"},
+                      f"the configuration written by `naunet init` (no rendering) differs from the requested description in {badf}",
+                      requested={f: want[f] for f in badf}, written={f: got[f] for f in badf})
+
+
 def run(argv):
     tier, seed = tier_and_seed(argv)
     chk = Check("C20", tier, seed, MODULES, THEOREMS, RULE)
@@ -313,6 +343,7 @@ def run(argv):
     ex_cases = [4, 5, 7, 8, 11] if tier == "quick" else [0, 1, 3, 4, 5, 6, 7, 8, 9, 10, 11, 16, 17, 18]
     process(chk, descs, ex_cases)
     reexport_config_check(chk, rng)
+    configure_only_check(chk, rng)
     return chk.finish()
 
 
